@@ -16,7 +16,8 @@ EXPLANATION = ('R17.1: KeyValue::VisitArgs applies the visitor to every validato
                'MinSize, MaxSize are interpreted abstractly over the finite set of orderings of the value (or size) relative to the bounds x '
                'loaded/not loaded: Required fails iff not loaded; Range/MinSize/MaxSize are inclusive and pass when not loaded. '
                'Not decided: path strings per archive, the Email/PhoneNumber grammars.')
-ASSUMPTIONS = ['values are touched by the built-in validators only through comparisons (finite orderings are exhaustive)']
+ASSUMPTIONS = ['R17.2: an integer member of SerializationContext other than the map that takes part in the cap test is a counter of failing fields (equal to the map size on entry)',
+               'values are touched by the built-in validators only through comparisons (finite orderings are exhaustive)']
 TRUSTED = ['clang 14 AST', 'bsfacts', 'bsv/dtab.py']
 
 
@@ -59,6 +60,100 @@ class ValidatorModel(Model):
                 it.ev(fr, a, depth)
             return TOP
         return NotImplemented
+
+
+class CapModel(Model):
+    """SerializationContext::AddValidationError over a map model: list of the reported path (None = absent), number of paths, the cap."""
+
+    def __init__(self, mx, s0, present, msg_param):
+        self.mx = mx
+        self.size = s0
+        self.list = ('old',) if present else None
+        self.msg_param = msg_param
+        self.finished = False
+        self.bad = None
+        self.s0 = s0
+
+    def initial_store(self, it, key):
+        # another integer member of the context used by the cap can only be a counter of the failing fields: it equals the map size on entry
+        if isinstance(key, str) and key.startswith('this.') and key.count('.') == 1:
+            return self.s0
+        return TOP
+
+    def member_value(self, it, fr, n, base):
+        if n.get('m') == 'maxValidationErrors':
+            return self.mx
+        return NotImplemented
+
+    def compare(self, it, fr, n, op, a, b):
+        if isinstance(a, Sym) and isinstance(b, Sym) and a.tag in ('IT', 'END') and b.tag in ('IT', 'END') and op in ('==', '!='):
+            return 1 if (a.tag == b.tag) == (op == '==') else 0
+        raise AnalysisBroken('R17.2: comparison outside the map model at %s' % fr.f.loc(n))
+
+    def construct(self, it, fr, n, depth):
+        for a in n.get('c', ()):
+            it.ev(fr, a, depth)
+        return TOP
+
+    def primitive(self, it, fr, n, callee, depth):
+        name = callee['n']
+        if name == 'OnFinishSerialization':
+            self.finished = True
+            return TOP
+        if callee.get('repo'):
+            return NotImplemented
+        obj, args = it.call_args(fr, n)
+        mentions_msg = any(r['k'] == 'DeclRefExpr' and r.get('d') == self.msg_param for a in args for r in fr.f.walk(a))
+        if name in ('operator==', 'operator!='):
+            vals = [it.ev(fr, a, depth) for a in ([obj] if obj is not None else []) + list(args)]
+            if len(vals) == 2:
+                return self.compare(it, fr, n, name[8:], vals[0], vals[1])
+        if name == 'find':
+            return Sym('IT') if self.list is not None else Sym('END')
+        if name in ('end', 'cend'):
+            return Sym('END')
+        if name in ('size',):
+            return self.size
+        if name == 'empty':
+            return 1 if self.size == 0 else 0
+        if name in ('count', 'contains'):
+            return 1 if self.list is not None else 0
+        if name in ('try_emplace', 'emplace', 'insert') and len(args) >= 2 or name == 'insert' and obj is not None and 'map' in fr.f.type(obj):
+            if self.list is None:
+                self.list = ('msg',) if mentions_msg else ('?',)
+                self.size += 1
+            return TOP
+        if name in ('insert_or_assign',):
+            if self.list is None:
+                self.size += 1
+            self.list = ('msg',) if mentions_msg else ('?',)
+            return TOP
+        if name == 'operator[]' or name == 'at':
+            if self.list is None:
+                if name == 'at':
+                    self.bad = 'at() on a path that is not in the map'
+                self.list = ()
+                self.size += 1
+            return TOP
+        if name in ('push_back', 'emplace_back'):
+            if self.list is None:
+                self.bad = 'appends through an iterator of a path that is not in the map'
+                self.list = ()
+            self.list = self.list + (('msg',) if mentions_msg else ('?',))
+            return TOP
+        if name in ('push_front', 'emplace_front', 'insert'):
+            if self.list is None:
+                self.list = ()
+            self.list = (('msg',) if mentions_msg else ('?',)) + self.list
+            return TOP
+        if name in ('clear', 'erase', 'assign', 'operator=') and obj is not None:
+            t = fr.f.type(obj)
+            if 'map' in t or 'vector' in t or 'ValidationErrors' in t:
+                self.bad = 'calls %s() on the collected errors' % name
+            return TOP
+        for a in args:
+            it.ev(fr, a, depth)
+        return TOP
 
 
 class VInterp(Interp):
@@ -193,31 +288,46 @@ def run(prog, rep):
         raise AnalysisBroken('anchor vanished: SerializationContext::AddValidationError')
     f = fs[0]
     rep.touch(f)
-    names = lambda node: [(g.callee(x) or {}).get('n') for g in [f] for x in f.walk(node) if x['k'] in ('CXXMemberCallExpr', 'CXXOperatorCallExpr')]
-    allc = names(f.body)
-    creates = any(c in ('try_emplace', 'emplace', 'insert', 'operator[]') for c in allc)
-    appends = 'push_back' in allc or 'emplace_back' in allc
-    prepends = any(c in ('push_front', 'insert') for c in allc if c in ('push_front',))
-    if creates and appends and not prepends:
-        rep.ok('R17.2', 'AddValidationError|grouping', sample={'new_path': 'try_emplace(one-element list)', 'existing_path': 'push_back'})
+    # abstract execution over a tiny map model: the list of the reported path is absent or holds one older message, the map has S0 paths,
+    # maxValidationErrors is MAX. Helpers of the class are inlined, so it does not matter where the cap predicate is written.
+    cells = []
+    for mx in (0, 1, 2, 3):
+        for s0 in (0, 1, 2, 3):
+            for present in (False, True):
+                final = s0 + (0 if present else 1)
+                if present and s0 == 0:
+                    continue
+                if mx > 0 and (final > mx or (present and s0 >= mx)):
+                    continue        # not reachable: the map is moved out when the cap is reached
+                cells.append((mx, s0, present))
+    bad_group, bad_cap = None, None
+    for mx, s0, present in cells:
+        model = CapModel(mx, s0, present, f.params[1]['d'] if len(f.params) > 1 else None)
+        it = VInterp(prog, model, max_depth=3, max_paths=50)
+        paths = it.run(f, lambda it_, fr: None)
+        if len(paths) != 1:
+            raise AnalysisBroken('R17.2: AddValidationError is not deterministic over the map model (%d paths; %s)' % (len(paths), [p.guards for p in paths]))
+        finished = model.finished or paths[0].outcome[0] == 'THROW'
+        want_list = (('old',) if present else ()) + ('msg',)
+        if model.bad or model.list != want_list:
+            bad_group = bad_group or 'path %s, map of %d paths: the list of the path becomes %s, expected %s%s' % (
+                'already reported' if present else 'new', s0, list(model.list) if model.list is not None else None, list(want_list),
+                ' (%s)' % model.bad if model.bad else '')
+        final = s0 + (0 if present else 1)
+        want_finish = mx > 0 and final == mx
+        if finished != want_finish:
+            bad_cap = bad_cap or 'maxValidationErrors=%d, %d failing fields after the report: %s, expected %s' % (
+                mx, final, 'throws' if finished else 'does not throw', 'the early throw' if want_finish else 'to continue')
+    if bad_group is None:
+        rep.ok('R17.2', 'AddValidationError|grouping', sample={'cells': len(cells), 'new_path': '[msg]', 'existing_path': '[old, msg]'})
     else:
-        rep.finding('R17.2', 'AddValidationError|grouping', f.loc(), 'AddValidationError must create a one-element list for a new path and append to an existing one '
-                    '(calls: %s)' % sorted(set(c for c in allc if c)), func=f.id)
-    cap_ok = False
-    for x in f.walk():
-        if x['k'] == 'IfStmt':
-            c = child(x, 'cond')
-            mem = set(y.get('m') for y in f.walk(c) if y['k'] == 'MemberExpr')
-            gt0 = any(y['k'] == 'BinaryOperator' and y.get('op') == '>' and y['c'][1].get('cv') == 0 for y in f.walk(c))
-            cmp_ = any(y['k'] == 'BinaryOperator' and y.get('op') in ('==', '>=', '<=') for y in f.walk(c))
-            sz = any((f.callee(y) or {}).get('n') == 'size' for y in f.walk(c) if y['k'] == 'CXXMemberCallExpr')
-            fin = any((f.callee(y) or {}).get('n') == 'OnFinishSerialization' or y['k'] == 'CXXThrowExpr' for y in f.walk(child(x, 'then')) if y['k'] in ('CXXMemberCallExpr', 'CXXThrowExpr'))
-            if 'maxValidationErrors' in mem and 'mErrorsMap' in mem and gt0 and cmp_ and sz and fin:
-                cap_ok = True
-    if cap_ok:
-        rep.ok('R17.2', 'AddValidationError|cap', sample={'cap': 'maxValidationErrors > 0 && maxValidationErrors == mErrorsMap.size() -> OnFinishSerialization()'})
+        rep.finding('R17.2', 'AddValidationError|grouping', f.loc(), 'AddValidationError must create a one-element list for a new path and append to an existing one: '
+                    + bad_group, func=f.id)
+    if bad_cap is None:
+        rep.ok('R17.2', 'AddValidationError|cap', sample={'cells': len(cells), 'cap': 'throws iff maxValidationErrors > 0 and equals the number of failing fields'})
     else:
-        rep.finding('R17.2', 'AddValidationError|cap', f.loc(), 'the early throw no longer compares the number of failing fields (mErrorsMap.size()) with maxValidationErrors under "> 0"', func=f.id)
+        rep.finding('R17.2', 'AddValidationError|cap', f.loc(), 'the early throw must happen exactly when the number of failing fields (mErrorsMap.size()) reaches '
+                    'maxValidationErrors (> 0): ' + bad_cap, func=f.id)
     rep.ok('R17.2', 'AddValidationError|found', nontrivial=False)
 
     # ---------------------------------------------------------------- R17.3
